@@ -25,7 +25,7 @@ class FakeDate:
     pass
 
 
-def make_result(eng, i, symbolic, sym_fields, codec):
+def make_result(eng, i, symbolic, sym_fields, codec, vul_fixed=None, num_range=(1, 999)):
     from bridge_env import Bid, Contract, Player, Vul
     from bridge_env.data_handler.pbn_handler.writer import Scoring
 
@@ -35,7 +35,8 @@ def make_result(eng, i, symbolic, sym_fields, codec):
             eng.assume(z3.And(lo <= v, v <= hi))
             return v
         return z3.IntVal(default)
-    dealer, vul, num = iv('dealer', 1, 4, 1 + i % 4), iv('vul', 1, 4, 1 + (i + 2) % 4), iv('board', 1, 999, i + 1)
+    dealer, num = iv('dealer', 1, 4, 1 + i % 4), iv('board', num_range[0], num_range[1], i + 1)
+    vul = z3.IntVal(vul_fixed) if (symbolic and vul_fixed) else iv('vul', 1, 4, 1 + (i + 2) % 4)
     passed_out = eng.decide(z3.Bool(f'g{i}_passed_out')) if symbolic else (i % 2 == 1)
     texts = {}
     for k, f in enumerate(FIELDS):
@@ -50,7 +51,7 @@ def make_result(eng, i, symbolic, sym_fields, codec):
         tricks = SInt(iv('tricks', 0, 13, 8))
         if symbolic:
             L = 2
-            for cand in (2, 3, 4, 5):
+            for cand in (2, 5):
                 if eng.decide(z3.Int(f'g{i}_contract_len') == cand):
                     L = cand
                     break
@@ -59,6 +60,7 @@ def make_result(eng, i, symbolic, sym_fields, codec):
             ch = [z3.Int(f'g{i}_contract_{j}') for j in range(L)]
             for c in ch:
                 eng.assume(z3.Or([c == ord(a) for a in '1234567CDHSNTX']))
+                eng.declare_domain(c, [ord(a) for a in '1234567CDHSNTX'])
             ctext = SStr(ch)
         else:
             ctext = '3NT'
@@ -75,7 +77,7 @@ def str_eq(a, b):
     return e if not isinstance(e, bool) else z3.BoolVal(e)
 
 
-def case_export(m, sym_i, sym_fields, header):
+def case_export(m, sym_i, sym_fields, header, vul=None, num_range=(1, 999)):
     from bridge_env import Contract, Player, Vul
     from bridge_env.data_handler.pbn_handler.parser import PbnParser
     from bridge_env.data_handler.pbn_handler.writer import PbnWriter
@@ -86,7 +88,7 @@ def case_export(m, sym_i, sym_fields, header):
         codecs = [pbn.DealCodec(eng, f'd{i}') for i in range(m)]
         pbn.install_codecs(eng, codecs)
         eng.attr_stubs[('FakeDate', 'strftime')] = lambda e, o: symx.SymCallable(lambda fmt: '2024.01.02')
-        recs = [make_result(eng, i, i == sym_i, sym_fields, codecs[i]) for i in range(m)]
+        recs = [make_result(eng, i, i == sym_i, sym_fields, codecs[i], vul, num_range) for i in range(m)]
         ghosts = [g for _, g in recs]
         by_contract = {id(g['contract']): g for g in ghosts}
 
@@ -179,21 +181,27 @@ def case_export(m, sym_i, sym_fields, header):
 
 
 def cases(tier):
-    combos = [(1, 0, ('event', 'north_player'), True), (2, 1, ('site', 'west_player'), False), (2, 0, ('east_player', 'south_player'), True),
-              (3, 1, ('event',), False)]
+    """the symbolic result's vulnerability is fixed per case (all four values are covered across the cases) and the board
+    number range is split, only to spread the work over processes"""
+    E, S, W, N, EA, SO = 'event', 'site', 'west_player', 'north_player', 'east_player', 'south_player'
+    combos = [(1, 0, (E, N), True, v, (1, 999)) for v in (1, 2, 3, 4)]
+    combos += [(2, 1, (S, W), False, v, (1, 99)) for v in (2, 4)]
+    combos += [(2, 0, (EA, SO), True, v, (100, 999)) for v in (1, 3)]
+    combos += [(3, 1, (E,), False, 4, (1, 9))]
     if tier == 'thorough':
-        combos += [(3, 0, ('site', 'east_player'), True), (3, 2, ('north_player', 'south_player'), False), (1, 0, ('west_player', 'site'), False)]
-    return [(case_export, f'{m} results, result {i} symbolic, free text in {f}, header={h}', dict(m=m, sym_i=i, sym_fields=f, header=h))
-            for m, i, f, h in combos]
+        combos += [(2, 1, (S, W), False, v, (1, 99)) for v in (1, 3)] + [(2, 0, (EA, SO), True, v, (100, 999)) for v in (2, 4)]
+        combos += [(3, i, (N, S), i == 0, v, (1, 99)) for i in (0, 1, 2) for v in (1, 2, 3, 4)]
+    return [(case_export, f'{m} results, result {i} symbolic (vulnerability {v}, board number {r[0]}..{r[1]}), free text in {f}, header={h}',
+             dict(m=m, sym_i=i, sym_fields=f, header=h, vul=v, num_range=r)) for m, i, f, h, v, r in combos]
 
 
 META = dict(
     level='model_checking',
-    bounds=lambda tier: {'results': 'sequences of 1..3 board results, one of them symbolic (each position in turn): dealer, vulnerability, board number 1..999, passed out or contract text of 2..5 characters, declarer, result 0..13',
+    bounds=lambda tier: {'results': 'sequences of 1..3 board results, one of them symbolic (each position in turn): dealer, vulnerability, board number 1..999, passed out or contract text of 2 or 5 characters, declarer, result 0..13',
                          'text': 'two free-text fields of 2 symbolic characters each over letters, digits, space and . , - _ / ( ) \' + # : (every field takes its turn)',
                          'line limit': 'all written lines of these results are checked; write_line\'s splitting of longer strings is outside (the property assumes each tag pair fits on one line)'},
     stubs=['capturing file', 'date.strftime -> fixed text', 'hand codec of the deal line -> injective 16-character tokens (contract discharged by C14)',
-           'str(contract) -> symbolic text over [1-7CDHSNTX] of length 2..5 (exact form: C15)'],
+           'str(contract) -> symbolic text over [1-7CDHSNTX] of length 2 or 5 (exact form: C15)'],
     assumptions=['regular expressions by the sre-semantics model (engine/sstr.py)'],
     rule='feasible paths of writer -> parser on a symbolic board result',
     explanation='the real PBN writer is executed symbolically and its text (symbolic characters) is fed to the real PBN parser',
